@@ -82,8 +82,9 @@ func decodeFunctionNames(r *bytes.Reader) (wasm.NameMap, error) {
 		return nil, err
 	}
 
-	result := make(wasm.NameMap, functionCount)
+	result := make(wasm.NameMap, 0, boundedSize(r, uint64(functionCount)))
 	for i := uint32(0); i < functionCount; i++ {
+		result = append(result, wasm.NameAssoc{})
 		functionIndex, err := decodeFunctionIndex(r, subsectionIDFunctionNames)
 		if err != nil {
 			return nil, err
@@ -104,8 +105,9 @@ func decodeLocalNames(r *bytes.Reader) (wasm.IndirectNameMap, error) {
 		return nil, err
 	}
 
-	result := make(wasm.IndirectNameMap, functionCount)
+	result := make(wasm.IndirectNameMap, 0, boundedSize(r, uint64(functionCount)))
 	for i := uint32(0); i < functionCount; i++ {
+		result = append(result, wasm.NameMapAssoc{})
 		functionIndex, err := decodeFunctionIndex(r, subsectionIDLocalNames)
 		if err != nil {
 			return nil, err
@@ -116,8 +118,9 @@ func decodeLocalNames(r *bytes.Reader) (wasm.IndirectNameMap, error) {
 			return nil, fmt.Errorf("failed to read the local count for function[%d]: %w", functionIndex, err)
 		}
 
-		locals := make(wasm.NameMap, localCount)
+		locals := make(wasm.NameMap, 0, boundedSize(r, uint64(localCount)))
 		for j := uint32(0); j < localCount; j++ {
+			locals = append(locals, wasm.NameAssoc{})
 			localIndex, _, err := leb128.DecodeUint32(r)
 			if err != nil {
 				return nil, fmt.Errorf("failed to read a local index of function[%d]: %w", functionIndex, err)
